@@ -220,7 +220,7 @@ Section UniLoop.
     assert (Hp : r_notPER (first_acc t) = false).
     { unfold first_acc. apply uni_step_notPER; [cbn; exact Hn | exact Hn]. }
     destruct (uni_loop_rest cs ts Hcs (first_acc t) ex2 Hp) as [ex' E'].
-    exists ex'. unfold first_acc, uni_step in *. destruct (r_empty t); exact E'.
+    exists ex'. unfold first_acc, uni_step in E' |- *. rewrite Hi in E' |- *. destruct (r_empty t); exact E'.
   Qed.
 
   (* the extensibility flag of a computed union is the disjunction over its
@@ -253,3 +253,36 @@ Section UniLoop.
     rewrite X1, X2. f_equal. apply existsb_perm. assumption.
   Qed.
 End UniLoop.
+
+(* ---- model vs Spec on whole expressions: witnesses ---- *)
+(* the shape of the reported miss, both operand orders: the model (= the code as
+   it is) agrees with the Spec *)
+Example nested_union_witness :
+  let a := NSize (SRoot (ERange (BInt 7) (BInt 9))) in
+  let b := NSize (SExt (ERange (BInt 1) (BInt 5))) in
+  nper_size_row TOctetString (npullup false [[NRoot (NUnion a b)]]) = tables_of (nper_effective [[NRoot (NUnion a b)]]) /\
+  nper_size_row TOctetString (npullup false [[NRoot (NUnion b a)]]) = tables_of (nper_effective [[NRoot (NUnion b a)]]) /\
+  p_ext (nper_size_row TOctetString (npullup false [[NRoot (NUnion a b)]])) = true.
+Proof. vm_compute. repeat split. Qed.
+
+(* the un-parenthesised  SEQUENCE SIZE(1..10,...) OF  spelling: the marker is lost
+   (asn1constraint_pullup calls _remove_extensions with forgive_last on a node
+   that is not a CA_SET) *)
+Lemma bare_size_marker_refuted : exists chain,
+  e_empty (nper_effective chain) = false /\
+  nper_size_row TSequenceOf (npullup false chain) = tables_of (nper_effective chain) /\
+  nper_size_row TSequenceOf (npullup true chain) <> tables_of (nper_effective chain).
+Proof.
+  exists [[NRoot (NSize (SExt (ERange (BInt 1) (BInt 10))))]].
+  vm_compute. repeat split; discriminate.
+Qed.
+
+(* ... and a constraint applied to a reference to such a type makes the SIZE
+   node a two-element node: compute's assert(ct->el_count == 1) *)
+Lemma bare_size_child_asserts : exists chain,
+  ncompute_top TSequenceOf (npullup true chain) ReqSize VisNone = TAbort /\
+  exists r, ncompute_top TSequenceOf (npullup false chain) ReqSize VisNone = TOk r.
+Proof.
+  exists [[NRoot (NSize (SRoot (ERange (BInt 1) (BInt 10))))]; [NRoot (NSize (SRoot (ERange (BInt 2) (BInt 3))))]].
+  split; [vm_compute; reflexivity | eexists; vm_compute; reflexivity].
+Qed.
